@@ -1,1 +1,248 @@
-//! Arithmetic properties (filled in below).
+//! Arithmetic properties: drivers that run the real numeric code and log bit patterns, and
+//! exact replays of TLC-enumerated integer vectors.
+
+use crate::common::*;
+use crate::order::ReplayReport;
+use crate::structs::*;
+use piecewise_polynomial::*;
+use serde_json::{json, Value};
+
+// ===================================================================== generators
+
+/// "interesting" finite scalars
+pub fn scalar(rng: &mut Rng) -> f64 {
+    match rng.below(10) {
+        0 => 0.0,
+        1 => -0.0,
+        2 => -1.0,
+        3 => 1.0,
+        4 => rng.float_exp(-300, -200),
+        5 => rng.float_exp(200, 300),
+        6 => rng.nice(),
+        _ => rng.float_exp(-30, 30),
+    }
+}
+
+/// coefficient vector of the given length, several regimes
+pub fn coeffs(rng: &mut Rng, len: usize) -> Vec<f64> {
+    match rng.below(6) {
+        0 => (0..len).map(|_| rng.float_exp(-20, 20)).collect(),
+        1 => (0..len).map(|_| rng.nice()).collect(),
+        2 => {
+            // single non-zero lane
+            let mut v = vec![0.0; len];
+            if len > 0 {
+                let i = rng.below(len as u64) as usize;
+                v[i] = rng.float_exp(-10, 10);
+            }
+            v
+        }
+        3 => (0..len).map(|_| rng.range(-9, 9) as f64).collect(),
+        4 => (0..len).map(|i| rng.float_exp(-3, 3) * (0.5f64).powi(i as i32 * rng.range(0, 6) as i32)).collect(),
+        _ => (0..len).map(|_| if rng.below(3) == 0 { 0.0 } else { rng.float_exp(-60, 60) }).collect(),
+    }
+}
+
+/// coefficients of prod (x - r_j), computed in f64 (rounded: the point is heavy cancellation near r_j)
+fn from_roots(roots: &[f64]) -> Vec<f64> {
+    let mut c = vec![1.0];
+    for &r in roots {
+        let mut d = vec![0.0; c.len() + 1];
+        for (i, &ci) in c.iter().enumerate() {
+            d[i + 1] += ci;
+            d[i] -= ci * r;
+        }
+        c = d;
+    }
+    c
+}
+
+// ===================================================================== C01 eval
+
+pub fn drive_eval(seed: u64, n: usize, sink: &mut Sink) -> usize {
+    let mut rng = Rng::new(seed);
+    let mut nontrivial = 0;
+    let mut emit = |sink: &mut Sink, form: &str, c: &[f64], x: f64, y: f64| {
+        sink.ev(json!({"ev":"eval","form":form,"c":jbs(c),"x":jb(x),"y":jb(y)}));
+    };
+    for it in 0..n {
+        let kind = it % 10;
+        match kind {
+            // ---- fixed-degree polynomials
+            0 | 1 | 2 | 3 | 4 => {
+                let len = 1 + rng.below(9) as usize;
+                let (c, x) = match rng.below(6) {
+                    0 => {
+                        // engineered cancellation: evaluate at / next to a root
+                        let roots: Vec<f64> = (0..len - 1).map(|_| rng.nice() + rng.range(-3, 3) as f64).collect();
+                        let c = from_roots(&roots);
+                        let r = if roots.is_empty() { 1.0 } else { *rng.pick(&roots) };
+                        let x = match rng.below(4) {
+                            0 => r,
+                            1 => r.next_up(),
+                            2 => r.next_down(),
+                            _ => r * (1.0 + 1e-8),
+                        };
+                        (c, x)
+                    }
+                    1 => (coeffs(&mut rng, len), if rng.bool() { 0.0 } else { -0.0 }),
+                    2 => (coeffs(&mut rng, len), rng.float_exp(-100, -20)),
+                    3 => (coeffs(&mut rng, len), rng.float_exp(20, 100)),
+                    4 => ((0..len).map(|_| rng.range(-9, 9) as f64).collect(), rng.range(-12, 12) as f64 / 4.0),
+                    _ => (coeffs(&mut rng, len), rng.float_exp(-6, 6)),
+                };
+                let y = poly_eval(&c, x);
+                if len > 2 && x != 0.0 {
+                    nontrivial += 1;
+                }
+                emit(sink, "poly", &c, x, y);
+            }
+            // ---- PolyN, lengths 0..12
+            5 | 6 => {
+                let len = rng.below(13) as usize;
+                let c = coeffs(&mut rng, len);
+                let x = if rng.below(5) == 0 { rng.range(-8, 8) as f64 / 2.0 } else { rng.float_exp(-8, 8) };
+                let y = PolyN(c.clone()).evaluate(x);
+                if len > 2 {
+                    nontrivial += 1;
+                }
+                emit(sink, "polyn", &c, x, y);
+            }
+            // ---- Log wrappers
+            _ => {
+                let fixed = kind != 9;
+                let len = if fixed { 1 + rng.below(9) as usize } else { rng.below(13) as usize };
+                let c = match rng.below(3) {
+                    0 => (0..len).map(|_| rng.nice()).collect(),
+                    _ => (0..len).map(|_| rng.float_exp(-8, 8)).collect::<Vec<f64>>(),
+                };
+                let v = match rng.below(8) {
+                    0 => 1.0,
+                    1 => {
+                        let mut v = 1.0f64;
+                        for _ in 0..rng.below(2000) {
+                            v = if it % 2 == 0 { v.next_up() } else { v.next_down() };
+                        }
+                        v
+                    }
+                    2 => rng.float_exp(-1022, 1023).abs(),
+                    3 => f64::from_bits(1 + rng.below(1 << 52)), // subnormal
+                    4 => rng.float_exp(-60, -1).abs(),
+                    5 => rng.float_exp(-3, 3).abs(),
+                    6 => (rng.unit() * 1e-3 + 1e-6),
+                    _ => rng.float_exp(1, 60).abs(),
+                };
+                let y = if fixed { log_poly_eval(&c, v) } else { Log(PolyN(c.clone())).evaluate(v) };
+                nontrivial += 1;
+                emit(sink, if fixed { "log" } else { "logn" }, &c, v, y);
+            }
+        }
+    }
+    nontrivial
+}
+
+// ===================================================================== calibration of Fl / Val
+
+/// Hardware results of + * / fma sqrt-free primitives with their operands: the trace spec checks
+/// that its round-to-nearest of the exact result is what the hardware produced.
+pub fn drive_calib(seed: u64, n: usize, sink: &mut Sink) {
+    let mut rng = Rng::new(seed ^ 0xCA11B);
+    for i in 0..n {
+        let (a, b, c) = match i % 5 {
+            0 => (rng.float_exp(-40, 40), rng.float_exp(-40, 40), rng.float_exp(-40, 40)),
+            1 => (rng.float_exp(-1022, 1023), rng.float_exp(-60, 60), rng.float_exp(-1022, 1023)),
+            2 => (f64::from_bits(rng.below(1 << 53)), rng.float_exp(-3, 3), f64::from_bits(rng.below(1 << 52))),
+            3 => (rng.nice(), rng.nice(), rng.nice()),
+            _ => {
+                let a = rng.float_exp(-5, 5);
+                (a, rng.float_exp(-5, 5), -a.next_up())
+            }
+        };
+        let b = if b == 0.0 { 1.5 } else { b };
+        sink.ev(json!({"ev":"calib","a":jb(a),"b":jb(b),"c":jb(c),
+            "add":jb(a + c),"mul":jb(a * b),"div":jb(a / b),"fma":jb(a.mul_add(b, c))}));
+    }
+}
+
+// ===================================================================== C01 exact replay
+
+fn ivec(v: &Value) -> Vec<i64> {
+    v.as_array().unwrap().iter().map(|x| x.as_i64().unwrap()).collect()
+}
+
+/// lines: {c:[int], xs:[int], ys:[int], d:[int], q:[int]} from MC_PolyAlgebra.
+/// Everything is an exactly representable integer, so whatever the evaluation scheme, the
+/// real code must return the model's value bit for bit, also under exact power-of-two scalings
+/// (x * 2^a, c_i * 2^(b - a*i)  ->  value * 2^b).
+pub fn replay_poly(lines: &[Value], _seed: u64) -> ReplayReport {
+    let mut rep = ReplayReport::default();
+    let scal: [(i32, i32); 7] = [(0, 0), (1, 0), (-1, 3), (5, -40), (-7, 100), (20, 300), (-20, -300)];
+    for l in lines {
+        rep.cases += 1;
+        let c = ivec(&l["c"]);
+        let xs = ivec(&l["xs"]);
+        let ys = ivec(&l["ys"]);
+        let d = ivec(&l["d"]);
+        let q = ivec(&l["q"]);
+        let len = c.len();
+        if c.iter().filter(|&&v| v != 0).count() >= 2 {
+            rep.nontrivial += 1;
+        }
+        let cf: Vec<f64> = c.iter().map(|&v| v as f64).collect();
+        for &(a, b) in &scal {
+            let cs: Vec<f64> = cf.iter().enumerate().map(|(i, &v)| v * 2f64.powi(b - a * i as i32)).collect();
+            if cs.iter().any(|v| !v.is_finite() || (*v != 0.0 && v.abs() < f64::MIN_POSITIVE)) {
+                continue;
+            }
+            for (k, &xi) in xs.iter().enumerate() {
+                let x = xi as f64 * 2f64.powi(a);
+                let want = ys[k] as f64 * 2f64.powi(b);
+                rep.runs += 1;
+                let got_fixed = poly_eval(&cs, x);
+                let got_n = PolyN(cs.clone()).evaluate(x);
+                // 0 * anything: a zero result may carry either sign
+                let same = |g: f64| g.to_bits() == want.to_bits() || (g == 0.0 && want == 0.0);
+                if !same(got_fixed) || !same(got_n) {
+                    rep.violations.push(json!({"kind":"poly-exact","c":cs.iter().map(|&v| hex(v)).collect::<Vec<_>>(),"c_int":c,
+                        "scale":[a,b],"x":hex(x),"expected":hex(want),"fixed_degree":hex(got_fixed),"polyn":hex(got_n)}));
+                }
+            }
+            // Log at v = 1 (ln 1 = 0 exactly): the value is c_0
+            let g = log_poly_eval(&cs, 1.0);
+            rep.runs += 1;
+            if !(g.to_bits() == cs[0].to_bits() || (g == 0.0 && cs[0] == 0.0)) {
+                rep.violations.push(json!({"kind":"log-at-1","c":cs.iter().map(|&v| hex(v)).collect::<Vec<_>>(),"got":hex(g)}));
+            }
+        }
+        // formal derivative on integers is exact: bit equality with the model's Deriv
+        let got_d: Vec<f64> = crate::with_poly_type!(len, T, { T::from_flat(&cf).derivative().flat() });
+        rep.runs += 1;
+        if got_d.len() != d.len() || got_d.iter().zip(d.iter()).any(|(&g, &w)| g != w as f64) {
+            rep.violations.push(json!({"kind":"derivative-exact","c_int":c,"expected":d,"got":got_d}));
+        }
+        // log-integral recurrence on integers is exact (quartic form: checked via trace validation)
+        if len != 5 {
+            let got_q: Vec<f64> = match len {
+                1 => Log(Poly0::from_flat(&cf)).indefinite().flat(),
+                2 => Log(Poly1::from_flat(&cf)).indefinite().flat(),
+                3 => Log(Poly2::from_flat(&cf)).indefinite().flat(),
+                4 => Log(Poly3::from_flat(&cf)).indefinite().flat(),
+                6 => Log(Poly5::from_flat(&cf)).indefinite().flat(),
+                7 => Log(Poly6::from_flat(&cf)).indefinite().flat(),
+                8 => Log(Poly7::from_flat(&cf)).indefinite().flat(),
+                9 => Log(Poly8::from_flat(&cf)).indefinite().flat(),
+                _ => unreachable!(),
+            };
+            rep.runs += 1;
+            let ok = got_q.len() == q.len() + 1 && got_q[0] == 0.0 && got_q[1..].iter().zip(q.iter()).all(|(&g, &w)| g == w as f64);
+            if !ok {
+                rep.violations.push(json!({"kind":"log-indefinite-exact","p_int":c,"expected_q":q,"got_k_then_q":got_q}));
+            }
+        }
+        if rep.samples.len() < 3 && rep.nontrivial > 0 && len >= 4 {
+            rep.samples.push(l.clone());
+        }
+    }
+    rep.violations.truncate(50);
+    rep
+}
